@@ -58,6 +58,7 @@ func c03(r *core.Run) {
 	r.Rule("C03/R2", "path classes of the per-proof routine: each path performs exactly one of {credit} | {remove} | {remove, burn}; credit behind {proven=true ∨ young=true}; burn behind proven=false ∧ young=false; predicate arguments ⊵ Ctx.BlockHeight and Store(FileProof).LastProven")
 	r.Rule("C03/R3", "only counted provers are paid: the payout recipient ⊵ size-tracker keys only; amount ⊵ {tracker entry, total size, pulled coins}")
 	r.Rule("C03/R4", "the paid pool is what was pulled: the payout amount depends on every source of the gauge->module pull amount")
+	r.Rule("C03/R7", "the burn counter is written as (count read from the store in this invocation)+1: no cached or passed-in provider record")
 	r.Rule("C03/R6", "decode targets are fresh: no proto Unmarshal on the reward path decodes into a variable captured from an enclosing function (the generated decoder appends to repeated fields, so a reused target accumulates the prover lists of earlier files)")
 	r.Rule("C03/R5", "the keys handed to the per-proof routine are exactly the processed file's prover list: file.Proofs itself or a per-file copy of len(file.Proofs) elements filled from it")
 	bb, _ := p.BlockEntries()
@@ -137,7 +138,7 @@ func c03(r *core.Run) {
 	var credit *ssa.MapUpdate
 	for _, fn := range funcs {
 		allInstrs(fn, func(in ssa.Instruction) {
-			if mu, ok := in.(*ssa.MapUpdate); ok {
+			if mu, ok := in.(*ssa.MapUpdate); ok && mu.Value.Type().String() == "int64" {
 				routine, credit = fn, mu
 			}
 		})
@@ -316,6 +317,50 @@ func c03(r *core.Run) {
 		}
 		r.Floor("C03/R5", nCall, 1, "per-proof routine call sites")
 	}
+
+	// ---- R7 the burn counter is incremented from a fresh read of the provider record
+	nBurn := 0
+	for _, fn := range funcs {
+		for _, e := range p.Effects(fn) {
+			call, ok := e.Instr.(ssa.CallInstruction)
+			if !ok {
+				continue
+			}
+			if cal, _ := directOpCallee(p, call, "Set", stProviders); cal == nil {
+				continue
+			}
+			nBurn++
+			args := dataArgs(call)
+			rec := args[len(args)-1]
+			bp := p.ProvAt(rec, ".BurnedContracts", call)
+			fresh := bp.HasStore(stProviders, ".BurnedContracts")
+			stale := ""
+			for _, a := range bp.DataAtoms() {
+				if !(a.Kind == "store" && a.Name == stProviders) {
+					stale = a.String()
+				}
+			}
+			// the record as a whole must also come from the store read of this invocation
+			for _, a := range p.ProvAt(rec, "", call).DataAtoms() {
+				if a.Kind == "param" || a.Kind == "free" {
+					stale = a.String()
+				}
+			}
+			r.Check(fresh && stale == "", "C03/R7", core.FnName(fn)+":burn-from-fresh-read", p.InstrPos(call), "new burn count ⊵ the provider record read from the store in this invocation only", "the burn counter written does not come solely from a fresh store read (it depends on "+stale+"): several misses of one provider in a reward block are collapsed into one increment")
+			// and it is an increment by one
+			inc := false
+			if al := recordAlloc(rec); al != nil {
+				for _, st := range fieldStores(al, "BurnedContracts") {
+					tb := core.NewTermBuilder(p)
+					if strings.Contains(tb.Term(st.Val), "+1)") {
+						inc = true
+					}
+				}
+			}
+			r.Check(inc, "C03/R7", core.FnName(fn)+":burn-increments-by-one", p.InstrPos(call), "burn count := parsed(old)+1", "the burn counter is not incremented by exactly one")
+		}
+	}
+	r.Floor("C03/R7", nBurn, 1, "burn sites")
 
 	// ---- R6 decode targets are fresh per callback invocation
 	staleDecodeTargets(r, "C03/R6", funcs)
